@@ -272,7 +272,8 @@ class _UseDepDefaultContainment(values.ContainmentMatch, caching=False):
 
     def __init__(self, if_missing: bool, vals, negate=False):
         self.if_missing = bool(if_missing)
-        super().__init__(vals, negate=negate, match_all=True)
+        # enabling: all of the flags must be on; disabling: none of them may be on
+        super().__init__(vals, negate=negate, match_all=not negate)
         self._hash = hash((self._hash, self.if_missing))
 
     def match(self, val):
